@@ -16,6 +16,7 @@ from .curve import Cfg
 from .common import norm_path
 from .summaries import sort_of, felem
 from . import engine as E, summaries as S
+from . import poly as P
 
 FIELDS = ("fq", "fr", "fp")
 LIMBS64 = {"fq": 4, "fr": 4, "fp": 6}
@@ -235,6 +236,100 @@ def check_methods(rep, cfg, loc):
         key = "FWD/%s/%s" % (cfg.name, norm_path(path))
         rep.ob(key, ok, "%s must denote %s; got %s%s" % (name, Tm.show(want[0]), Tm.show(got, maxdepth=6), ("; unmodelled: " + "; ".join(out.unmodelled[:2])) if out.unmodelled else ""),
                where=cfg.where(path), sample={"obligation": key, "expected": Tm.show(want[0]), "got": Tm.show(got, maxdepth=4)})
+    return n
+
+
+FIELD_TRAIT_COVER = {
+    # method of an arkworks field trait implemented by the wrappers -> the rule that covers it ("here" = check_field_trait_methods below)
+    "double": "FWD(methods)", "double_in_place": "FWD(methods)", "neg_in_place": "FWD(methods)", "square": "FWD(methods)", "square_in_place": "FWD(methods)",
+    "zero": "FWD(methods)", "is_zero": "FWD(methods)", "one": "FWD(methods)", "is_one": "FWD(methods)", "inverse": "INV", "legendre": "C09 LEGENDRE",
+    "sqrt": "C09 SQRT", "sqrt_in_place": "C09 SQRT", "from_bigint": "C11 CANON", "into_bigint": "C11 CONV", "from_be_bytes_mod_order": "C11 RED",
+    "from_le_bytes_mod_order": "C11 RED",
+    "from_random_bytes_with_flags": "sampling helper (reduces arbitrary bytes): neither an arithmetic form of C10 nor a serialisation of C11",
+    "inverse_in_place": "here", "frobenius_map_in_place": "here", "characteristic": "here", "extension_degree": "here", "from_base_prime_field": "here",
+    "from_base_prime_field_elems": "here", "to_base_prime_field_elements": "here", "sum_of_products": "here",
+}
+
+
+def check_field_trait_methods(rep, cfg, loc):
+    """every function the wrappers define in their impls of ark_ff::{Field, PrimeField, FftField, Zero, One} is either covered by a named rule or
+    interpreted here; a method outside the table (a new override of an arkworks default) fails closed"""
+    n = 0
+    for im in cfg.facts["impls"]:
+        td = im.get("trait_def") or ""
+        if td not in ("ark_ff::Field", "ark_ff::PrimeField", "ark_ff::FftField", "ark_ff::Zero", "ark_ff::One"):
+            continue
+        m = re.match(r"^fields::(fq|fr|fp)::u(64|32)::wrapper::F[qrp]$", E.strip_lt(im.get("self", "")))
+        if not m or (m.group(2) == "64") != (cfg.name in ("A", "R")):
+            continue
+        f = m.group(1)
+        p = K.MODULI[f]
+        for it in im["items"]:
+            if it["kind"] != "Fn":
+                continue
+            n += 1
+            name, path = it["name"], it["path"]
+            how = FIELD_TRAIT_COVER.get(name)
+            key = "COVER/%s/<%s as %s>::%s" % (cfg.name, f, td.split("::")[-1], name)
+            if how is None:
+                rep.ob(key, False, "the wrapper defines %s::%s but no rule interprets it (an override of an arkworks default or a new trait method): verify it and add a "
+                                   "rule, or drop it" % (td, name), where=cfg.where(path), nontrivial=False)
+                continue
+            if how != "here":
+                rep.ob(key, True, "covered by " + how, nontrivial=False)
+                continue
+            out, names = run_deep(cfg, path, loc)
+            v = den(out.value)
+            post = den(out.outs.get(0, mk("bottom")))
+            S_ = mk("param", "self")
+            ok, want = False, ""
+            if name == "inverse_in_place":
+                want = "None on 0, else Some and *self := self^-1"
+                ok = v is Tm.ite(Tm.eq(S_, felem(f, 0)), variant("None"), variant("Some", mk("inv", S_))) and post is Tm.ite(Tm.eq(S_, felem(f, 0)), S_, mk("inv", S_))
+            elif name == "frobenius_map_in_place":
+                want = "the identity map on a prime field"
+                ok = post is S_
+            elif name == "characteristic":
+                want = "the limbs of the modulus"
+                ok = v.op == "array" and all(Tm.is_lit(a) for a in v.args) and sum(a.args[0] << (64 * i) for i, a in enumerate(v.args)) == p
+            elif name == "extension_degree":
+                want = "1"
+                ok = v is lit(1)
+            elif name == "from_base_prime_field":
+                want = "its argument"
+                ok = v is mk("param", names[0]) if names else False
+            elif name == "from_base_prime_field_elems":
+                want = "Some(elems[0]) iff exactly one element"
+                e_ = mk("param", names[0]) if names else mk("bottom")
+                ok = v is Tm.ite(Tm.eq(mk("len", e_), lit(1)), variant("Some", Tm.index(e_, lit(0))), variant("None"))
+            elif name == "to_base_prime_field_elements":
+                want = "the one-element sequence [self]"
+                ok = v.op == "array" and len(v.args) == 1 and den(v.args[0]) is S_
+            elif name == "sum_of_products":
+                want = "the fold  sum' = sum + a[i]*b[i]  over i in 0..T from 0"
+                a_, b_ = (mk("param", x) for x in names[:2]) if len(names) >= 2 else (mk("bottom"), mk("bottom"))
+                if v.op == "proj" and v.args[0].op == "fold":
+                    itr, item, accs, inits, nexts = v.args[0].args
+                    rng = dict(zip(itr.args[1], itr.args[2:])) if itr.op == "struct" and itr.args[0] == "core::ops::Range" else {}
+                    N = P.Norm(p)
+
+                    def unwrap(t, memo={}):
+                        # wrapper{backend x} and its .0 projection both denote the element x
+                        if not isinstance(t, Tm.T):
+                            return t
+                        if t.op == "struct" and re.search(r"wrapper::F[qrp]$", str(t.args[0])) and t.args[1] == ("0",):
+                            return unwrap(t.args[2])
+                        if t.op == "field" and t.args[1] == "0":
+                            return unwrap(t.args[0])
+                        if not t.args:
+                            return t
+                        na = tuple(unwrap(a) if isinstance(a, Tm.T) else a for a in t.args)
+                        return t if all(x is y for x, y in zip(na, t.args)) else Tm.rebuild(t.op, list(na))
+                    step = mk("add", unwrap(accs[0]), mk("mul", Tm.index(a_, item), Tm.index(b_, item)))
+                    ok = rng.get("start") is lit(0) and rng.get("end") is not None and rng["end"].op == "constparam" and len(accs) == 1 \
+                        and unwrap(inits[0]) is felem(f, 0) and N.pkey(N.poly(unwrap(nexts[0]))) == N.pkey(N.poly(step))
+            rep.ob(key, ok and not out.unmodelled, "%s must be %s; got %s / post-state %s" % (name, want, Tm.show(v, maxdepth=5), Tm.show(post, maxdepth=4)),
+                   where=cfg.where(path), nontrivial=(name in ("inverse_in_place", "sum_of_products")))
     return n
 
 
@@ -583,6 +678,9 @@ def run(rep, facts, tier):
         loc_ops = with_inverse_summary(cfg, loc)
         n1 = check_ops(rep, cfg, loc_ops)
         n2 = check_methods(rep, cfg, loc_ops)
+        nft = check_field_trait_methods(rep, cfg, loc_ops)
+        if name == "A":
+            rep.floor("field_trait_methods_A", nft, 69)
         cfg.cache = {k: v for k, v in cfg.cache.items() if not (isinstance(k, tuple) and k[-1] == "deep+args")}
         check_inverse(rep, cfg, loc)
         check_select(rep, cfg, loc)
